@@ -529,26 +529,35 @@ class C13(e2.ProgenProp):
         return fid in C13._known_ids
 
     @staticmethod
-    def _finding(case, sched=None):
-        """id of the finding input class that contains this (program, schedule), else None (classes are properties of the program DAG only)"""
+    def _findings(case):
+        """ids of the finding input classes that contain this program (classes are properties of the program DAG only)"""
         na = len(case.get("arrays", []))
         stages = case.get("stages", [])
-        order = False
+        out = []
         for s in stages:
             f = s["f"]
             views = [j for j, i in enumerate(s["in"]) if i >= na]
             # a ufunc node whose operand is a broadcast_to view of another VIEW: every operand of an n-ary ufunc is wrapped in broadcast_to (mean =
             # divide(sum(x), n) and softmax are such nodes by definition); for a unary ufunc an explicit broadcast_to stage over a stage result
             if f in ("mean", "softmax") or (f in UFUNC2 and views):
-                return F_DANGLING
+                out.append(F_DANGLING)
             if (f in UFUNC1 or f in ACTIV) and views:
                 src = stages[s["in"][0] - na]
                 if src["f"] == "broadcast_to" and src["in"][0] >= na:
-                    return F_DANGLING
-            # a multi-operand node with a view operand that is not the first operand (where / stack wrap every operand in a view)
-            if f in ("where", "stack") or (f in MULTI and any(j >= 1 for j in views)):
-                order = True
-        return F_ORDER if order else None
+                    out.append(F_DANGLING)
+            # a multi-operand node with a view operand that is not the first operand (where / stack wrap every operand in a view; softmax =
+            # exp(x - max) / sum(exp(x - max)) has view operands on both sides)
+            if f in ("where", "stack", "softmax") or (f in MULTI and any(j >= 1 for j in views)):
+                out.append(F_ORDER)
+        return sorted(set(out), key=out.index)
+
+    def _finding(self, case, sched=None):
+        """the first KNOWN finding class containing this program, else the first class, else None"""
+        fs = self._findings(case)
+        for x in fs:
+            if self._is_known(x):
+                return x
+        return fs[0] if fs else None
 
     def features(self, case, failure):
         return {"finding": self._finding(case.get("case") or {}, case.get("schedule"))}
